@@ -257,27 +257,27 @@ theorem loadPkg_good (b : Bundle) (hb : WfBundle b) :
           simp only []
           -- the dependency loop
           have hdeps : ∀ ds : List Str,
-              (loadPkg.loadDeps b fuel chain name ds).isPanic = false ∧
-                ∀ ls, loadPkg.loadDeps b fuel chain name ds = .ok ls →
+              (seqLoad (fun d => loadPkg b fuel (chain ++ [name]) d) ds).isPanic = false ∧
+                ∀ ls, seqLoad (fun d => loadPkg b fuel (chain ++ [name]) d) ds = .ok ls →
                   ∀ l ∈ ls, GoodExports l.exports := by
             intro ds
             induction ds with
             | nil =>
-              refine ⟨by simp [loadPkg.loadDeps, Outcome.isPanic], ?_⟩
+              refine ⟨by simp [seqLoad, Outcome.isPanic], ?_⟩
               intro ls hls
-              simp only [loadPkg.loadDeps, Outcome.ok.injEq] at hls
+              simp only [seqLoad, Outcome.ok.injEq] at hls
               subst hls
               intro l hl; simp at hl
             | cons d ds ihd =>
               obtain ⟨hp, hg⟩ := ih (chain ++ [name]) d
-              rw [loadPkg.loadDeps]
+              rw [seqLoad]
               cases hl : loadPkg b fuel (chain ++ [name]) d with
               | panic w => rw [hl] at hp; cases hp
               | err t => exact ⟨rfl, fun ls hls => by cases hls⟩
               | ok l =>
                 simp only []
                 obtain ⟨ihp, ihg⟩ := ihd
-                cases hr : loadPkg.loadDeps b fuel chain name ds with
+                cases hr : seqLoad (fun d => loadPkg b fuel (chain ++ [name]) d) ds with
                 | panic w => rw [hr] at ihp; cases ihp
                 | err t => exact ⟨rfl, fun ls hls => by cases hls⟩
                 | ok more =>
@@ -289,24 +289,21 @@ theorem loadPkg_good (b : Bundle) (hb : WfBundle b) :
                   rcases List.mem_cons.mp hl' with rfl | hm
                   · exact hg _ hl
                   · exact ihg more hr l' hm
-          obtain ⟨hdp, hdg⟩ := hdeps ((dedup (sums.flatMap (·.depPkgs))).filter (· ≠ name))
-          cases hld : loadPkg.loadDeps b fuel chain name
-              ((dedup (sums.flatMap (·.depPkgs))).filter (· ≠ name)) with
+          obtain ⟨hdp, hdg⟩ := hdeps (depNamesOf name sums)
+          cases hld : seqLoad (fun d => loadPkg b fuel (chain ++ [name]) d) (depNamesOf name sums) with
           | panic w => rw [hld] at hdp; cases hdp
           | err t => exact ⟨rfl, fun l hl => by cases hl⟩
           | ok ls =>
             simp only []
-            let r : Resolver := { pkgName := name, exports := sums.flatMap (·.exports),
-                                  deps := ls.map fun l => (l.name, l.exports) }
-            have hres : ∀ im, WfCtx { resolve := resolveTypeNoImport im r } := by
+            have hres : ∀ im, WfCtx { resolve := resolveTypeNoImport im (mkResolver name sums ls) } := by
               intro im
               apply wfCtx_of_exports
               · exact hsg sums hs
               · intro pe hpe
                 obtain ⟨l, hl, rfl⟩ := List.mem_map.mp hpe
                 exact hdg ls hld l hl
-            have hca := convertAll_no_panic r hres pkg.files hfiles
-            cases hcv : convertAll r pkg.files with
+            have hca := convertAll_no_panic (mkResolver name sums ls) hres pkg.files hfiles
+            cases hcv : convertAll (mkResolver name sums ls) pkg.files with
             | panic w => rw [hcv] at hca; cases hca
             | err t => exact ⟨rfl, fun l hl => by cases hl⟩
             | ok files =>
